@@ -15,7 +15,11 @@ Opts(ML) == LeafOpts(ML) \cup NestOpts(ML) \cup ArrmOpts \cup MapOpts
 NMaps(fs) == Cardinality({i \in 1..Len(fs) : fs[i][1] = "map"})
 MsgsOf(NF, ML) == {[ck |-> c, S |-> 2, fs |-> fs] : c \in BOOLEAN,
                     fs \in {f \in UNION {[1..n -> Opts(ML)] : n \in 1..NF} : NMaps(f) <= 1}}
-MsgsQuick == MsgsOf(2, 2)
-MsgsThorough == MsgsOf(3, 2)
+\* quick: every single-field message, and every pair over a representative subset
+Repr == {<<"buf", 2>>, <<"abuf", 1>>, <<"str", 0>>, <<"str", 2>>, <<"arr", 2, 2>>, <<"fbuf", 2, 2>>, <<"iov", <<1, 1>>>>,
+         <<"aiov", <<0, 2>>>>, <<"msg", <<<<"abuf", 2>>, <<"str", 2>>>>>>, <<"msg", <<<<"buf", 0>>, <<"aiov", <<1>>>>>>>>,
+         <<"arrm", 2, <<Elem(0), Elem(2)>>>>, <<"map", 2, 6, << <<3, 1, 4, 2>>, <<0, 1, 1, 2>> >>>>}
+MsgsQuick == MsgsOf(1, 2) \cup {[ck |-> c, S |-> 2, fs |-> <<a, b>>] : c \in BOOLEAN, a \in Repr, b \in Repr \ MapOpts}
+MsgsThorough == MsgsOf(2, 2) \cup {[ck |-> c, S |-> 2, fs |-> <<a, b, d>>] : c \in BOOLEAN, a \in Repr, b \in Repr \ MapOpts, d \in Repr \ MapOpts}
 ModesAll == {"honest", "hostile", "hostileSL", "altered", "short"}
 ====
